@@ -755,6 +755,34 @@ impl Prims {
                 }
             }
         }
+        // the same text tokenised by ANOTHER language, same size, right afterwards on the same index: the query that
+        // counts is the one handed over (its normalised words), not the text it was typed as
+        if errs.is_empty() && cx.rng.chance(1, 6) {
+            let other = LANGS[(hstr(q) as usize + 1) % LANGS.len()];
+            let tq2 = with_lang(other, |l| tokenize_query(q, l));
+            if !tq2.words.is_empty() && tq2.chars != tq.chars {
+                let qg2 = oracle::grams_of(&tq2);
+                let got2 = st.store.index.borrow_mut().prepare(&tq2.to_ref(), size);
+                cx.eval();
+                cx.count("calls with the same text tokenised by another language");
+                let shared2: Vec<usize> = rgrams.iter().map(|g| g.intersection(&qg2).count()).collect();
+                let sharing2 = shared2.iter().filter(|&&c| c > 0).count();
+                let mut e2: Vec<String> = vec![];
+                for &ix in &got2 {
+                    if ix >= *n || shared2[ix] == 0 {
+                        e2.push(format!("position {} shares no gram with the query as tokenised by {}", ix, other));
+                    }
+                }
+                if sharing2 <= 10 * size && got2.len() != sharing2 {
+                    e2.push(format!("{} records share a gram with the query as tokenised by {} (<= 10*size) but {} are listed", sharing2, other, got2.len()));
+                }
+                if !e2.is_empty() {
+                    cx.fail("index-candidates", json!({"lang": lang, "store": store_desc, "query": q, "query_tokenised_by": other, "size": size, "got": got2, "shared_gram_counts": shared2, "errors": e2,
+                        "history": "the same text tokenised by the store's language was prepared with the same size immediately before"}));
+                    return;
+                }
+            }
+        }
         if sharing > 0 {
             cx.key(hparts(&[lang, &store_desc.to_string(), q, &size.to_string()]));
         }
@@ -1055,6 +1083,13 @@ impl Prop for Prims {
                 let two = idx % 4 == 1;
                 let total = if two { 131_072 + first + 6 } else { 65_536 + first + 6 };
                 let mut judged = 0u64;
+                if idx % 2 == 0 {
+                    // the instance has grown once (a word of 24-60 letters) before the long run of small calls begins
+                    let long: Vec<char> = (0..cx.rng.range(24, 60)).map(|_| *cx.rng.pick(&common)).collect();
+                    let tl = classed(&long);
+                    let _ = inst.distance(&tl.view(0), &tl.view(0));
+                    cx.count("sessions on an instance that grew before the run of small calls");
+                }
                 for k in 0..total {
                     let base = if k >= 65_536 { k - 65_536 } else { k };
                     let base = if base >= 65_536 { base - 65_536 } else { base };
@@ -1080,7 +1115,11 @@ impl Prop for Prims {
                         cx.ctx(format!("C16 session call #{} {:?} {:?}", k + 1, s(&c1), s(&c2)));
                     }
                     let got = inst.distance(&t1.view(0), &t2.view(0));
-                    if special || k % 17 == 0 || k + 8 >= total {
+                    let near_power = (3..=17).any(|b| {
+                        let p = 1usize << b;
+                        k + 3 >= p && k <= p + 2
+                    });
+                    if special || near_power || k % 17 == 0 || k + 8 >= total {
                         let want = DamerauLevenshtein::new().distance(&t1.view(0), &t2.view(0));
                         judged += 1;
                         if got != want {
